@@ -95,10 +95,14 @@ func c01Packet(first gopacket.LayerType, n int) {
     for lt in e["layertypes"]:
         nn = C01_SIZES.get(lt, {}).get(tier, n)
         out.append(f"func verif_C01_pkt_{lt[len('LayerType'):]}() {{ c01Packet({lt}, {nn}) }}")
+    for T, rn in C01_RENDER.items():
+        out.append(f"func verif_C01_render_{T}() {{ c01Render(LayerType{T}, {rn if tier == 'quick' else rn + 8}) }}")
     return [("layers", "c01gen.go", "\n".join(out) + "\n")]
 
 
 C01_SIZES = {}
+# rendering walk (String/Dump of every decoded layer): first layer type -> input bound (quick)
+C01_RENDER = {"TCP": 32, "IPv4": 28, "UDP": 12, "Ethernet": 18, "ICMPv4": 12, "ICMPv6": 16, "GRE": 16, "ARP": 28, "IPv6": 44, "Dot1Q": 8, "SCTP": 20, "LLC": 8, "VRRP": 12, "IGMP": 12}
 
 C06_COMMON = """
 type c06DF struct{ t bool }
@@ -117,6 +121,18 @@ func c06EthernetPayload(got, want []byte) {
 			verifAssert(b == 0, "the rest is zero padding")
 		}
 		verifAssert(len(got) == len(want) || len(got) <= 46, "padding only up to the minimum frame size")
+	}
+}
+
+// IPv6 hop-by-hop / destination options: FixLengths re-computes the padding
+// options (Pad1/PadN), so the lists are compared without padding options
+func c06SameTLV(at []uint8, ad [][]byte, bt []uint8, bd [][]byte) {
+	verifAssert(len(at) == len(bt), "same number of non-padding options after the round trip")
+	for i := range at {
+		if i < len(bt) {
+			verifAssert(at[i] == bt[i], "same option types in the same order")
+			verifAssert(bytes.Equal(ad[i], bd[i]), "same option data")
+		}
 	}
 }
 
@@ -153,7 +169,8 @@ def ser_types(enum):
 
 
 def gen_c06(tier, enum):
-    n = 20 if tier == "quick" else 28
+    n = 14 if tier == "quick" else 24
+    csum = "false" if tier == "quick" else "true"
     out = ["package layers", "", 'import (', '\t"bytes"', '\t"net"', "", '\t"github.com/gopacket/gopacket"', ")", "", "var _ = bytes.Equal", C06_COMMON]
     for x in ser_types(enum):
         T = x["Name"]
@@ -161,6 +178,23 @@ def gen_c06(tier, enum):
         setnet = "\tl.SetNetworkLayerForChecksum(c06Net4)\n" if x["SetNet"] else ""
         setnet2 = "\tl2.SetNetworkLayerForChecksum(c06Net4)\n" if x["SetNet"] else ""
         payload_check = 'verifAssert(bytes.Equal(l2.LayerPayload(), pay), "same payload after the round trip")'
+        if T in ("IPv6HopByHop", "IPv6Destination"):
+            fields_check = """var at, bt []uint8
+	var ad, bd [][]byte
+	for _, o := range l.Options {
+		if o.OptionType > 1 {
+			at, ad = append(at, o.OptionType), append(ad, o.OptionData)
+		}
+	}
+	for _, o := range l2.Options {
+		if o.OptionType > 1 {
+			bt, bd = append(bt, o.OptionType), append(bd, o.OptionData)
+		}
+	}
+	c06SameTLV(at, ad, bt, bd)
+	verifAssert(l.NextHeader == l2.NextHeader, "same next header")"""
+        else:
+            fields_check = 'verifAssert(verifDeepEqualExcept(&l, &l2, "(?i)checksum|length|len$|crc|fcs"), "same field values after serialize then decode")'
         if T == "Ethernet":
             # frames are padded to the 60-byte minimum (documented in SerializeTo): the original payload is a prefix, the rest is zero padding
             payload_check = 'c06EthernetPayload(l2.LayerPayload(), pay)'
@@ -181,7 +215,7 @@ def gen_c06(tier, enum):
 	pay := l.LayerPayload()
 	pb, _ := buf.AppendBytes(len(pay))
 	copy(pb, pay)
-	if err := l.SerializeTo(buf, gopacket.SerializeOptions{{FixLengths: true, ComputeChecksums: true}}); err != nil {{
+	if err := l.SerializeTo(buf, gopacket.SerializeOptions{{FixLengths: true, ComputeChecksums: {csum}}}); err != nil {{
 		verifReached("serialize-refused")
 		return
 	}}
@@ -194,12 +228,12 @@ def gen_c06(tier, enum):
 	{payload_check}
 	// fields that SerializeTo is documented to overwrite when fixing lengths
 	// and computing checksums are compared after a second round instead
-	verifAssert(verifDeepEqualExcept(&l, &l2, "(?i)checksum|length|len$|crc|fcs"), "same field values after serialize then decode")
+	{fields_check}
 {setnet2}	buf2 := gopacket.NewSerializeBuffer()
 	pay2 := l2.LayerPayload()
 	pb2, _ := buf2.AppendBytes(len(pay2))
 	copy(pb2, pay2)
-	if err := l2.SerializeTo(buf2, gopacket.SerializeOptions{{FixLengths: true, ComputeChecksums: true}}); err == nil {{
+	if err := l2.SerializeTo(buf2, gopacket.SerializeOptions{{FixLengths: true, ComputeChecksums: {csum}}}); err == nil {{
 		verifAssert(bytes.Equal(buf2.Bytes(), out), "writing the decoded layer once more reproduces the same bytes")
 	}}
 	verifReached("roundtrip")
@@ -209,12 +243,13 @@ def gen_c06(tier, enum):
 
 
 def gen_c07(tier, enum):
-    n = 20 if tier == "quick" else 28
+    n = 14 if tier == "quick" else 24
     out = ["package layers", "", 'import (', '\t"bytes"', '\t"net"', "", '\t"github.com/gopacket/gopacket"', ")", "", "var _ = bytes.Equal", C06_COMMON]
     for x in ser_types(enum):
         T = x["Name"]
         nn = C06_SIZES.get(T, {}).get(tier, n)
         setnet = "\tl.SetNetworkLayerForChecksum(c06Net4)\n" if x["SetNet"] else ""
+        c07csum = "false" if tier == "quick" else "verifChoose(2) == 1"
         out.append(f"""func verif_C07_ser_{T}() {{
 	in := verifBytes("in", {nn})
 	n := verifInt("n", 0, {nn})
@@ -223,7 +258,7 @@ def gen_c07(tier, enum):
 		verifReached("decode-err")
 		return
 	}}
-{setnet}	opts := gopacket.SerializeOptions{{FixLengths: verifChoose(2) == 1, ComputeChecksums: verifChoose(2) == 1}}
+{setnet}	opts := gopacket.SerializeOptions{{FixLengths: verifChoose(2) == 1, ComputeChecksums: {c07csum}}}
 	pay := append([]byte(nil), l.LayerPayload()...)
 	fresh := gopacket.NewSerializeBuffer()
 	pb, _ := fresh.AppendBytes(len(pay))
@@ -317,11 +352,11 @@ def no_alloc(name, v):
 PROPS = {
     "C01": {
         "pkgs": [MOD, MOD + "/layers"],
-        "static": [("", "c01core.go")],
+        "static": [("", "c01core.go"), ("layers", "c02.go")],
         "generate": gen_c01,
         "bounds": "builder protocol: chains of <= 2 (quick) / 3 (thorough) nondeterministic decoder stubs (layer kind, type, symbolic contents/payload split, truncation flag, ending in return nil / return err / panic / NextDecoder(next) / NextDecoder(nil)), input 1..3 symbolic bytes, options NoCopy x Pool x DecodeStreamsAsDatagrams x {eager, lazy}, accessor sequences of <= 2 calls before Layers()",
-        "outside": "inputs up to 64 KiB; fmt/reflect internals of String/Dump/LayerGoString",
-        "quick": {"timeout": 900, "units": "verif_C01_(core2|pkt_.*)", "params": "verif_C01_core.*:b0=0..14,opt=0..1", "unsupported_ok": True, "maxpaths": 250, "partial_ok_all": True, "timeout": 1200},
+        "outside": "inputs up to 64 KiB; the text produced by String/Dump (fmt is stubbed; the engine follows layerString's traversal and executes every String()/Error() method it would call, for 15 first-layer types); LayerGoString; slices of more than 4 elements are not rendered by gopacket itself",
+        "quick": {"timeout": 900, "units": "verif_C01_(core2|pkt_.*|render_.*)", "params": "verif_C01_core.*:b0=0..14,opt=0..1", "unsupported_ok": True, "maxpaths": 250, "partial_ok_all": True, "timeout": 1200},
         "thorough": {"timeout": 3000, "params": "verif_C01_core.*:b0=0..14,opt=0..4", "unsupported_ok": True, "maxpaths": 20000, "partial_ok_all": True},
     },
     "C02": {
@@ -362,18 +397,18 @@ PROPS = {
     "C06": {
         "pkgs": [MOD + "/layers"],
         "generate": gen_c06,
-        "bounds": "every type with both DecodeFromBytes and SerializeTo: layer obtained by decoding n symbolic bytes (n symbolic in 0..20 quick / 0..28 thorough, i.e. fixed header plus a few option/TLV bytes plus payload), written over its payload with FixLengths and ComputeChecksums, decoded again; compared: all exported fields (lists element-wise in order), payload, error, truncation flag",
+        "bounds": "every claimed type with both DecodeFromBytes and SerializeTo: layer obtained by decoding n symbolic bytes (n symbolic in 0..14 quick / 0..24 thorough), written over its payload with FixLengths (and ComputeChecksums in thorough; checksum values themselves are C08's subject), decoded again, then written once more; compared: all exported fields (lists element-wise in order), payload, error, truncation flag",
         "outside": "layers built from in-range field values rather than by decoding; stacks through SerializeLayers; payloads > 64 KiB; layer types Dot11, RadioTap, GTPv1U, Geneve, DNS (counterexamples not triaged or exploration too large: not claimed, see props.C06_NOT_CLAIMED)",
-        "quick": {"timeout": 1200, "maxpaths": 300, "partial_ok_all": True, "unsupported_ok": True},
-        "thorough": {"timeout": 3000, "maxpaths": 30000, "partial_ok_all": True, "unsupported_ok": True},
+        "quick": {"timeout": 1500, "maxpaths": 200, "partial_ok_all": True, "unsupported_ok": True},
+        "thorough": {"timeout": 5000, "maxpaths": 3000, "partial_ok_all": True, "unsupported_ok": True},
     },
     "C07": {
         "pkgs": [MOD + "/layers"],
         "generate": gen_c07,
         "bounds": "every type with both DecodeFromBytes and SerializeTo: layer decoded from n symbolic bytes (n in 0..20 quick / 0..28 thorough), all four FixLengths/ComputeChecksums combinations; serialized into a fresh buffer, a buffer that held 64 symbolic garbage bytes and was cleared, and a pre-sized buffer; outputs compared bytewise",
         "outside": "layer values built through public fields without decoding; layer types Dot11, RadioTap, GTPv1U, Geneve, DNS (not claimed, as in C06)",
-        "quick": {"timeout": 1200, "maxpaths": 300, "partial_ok_all": True, "unsupported_ok": True},
-        "thorough": {"timeout": 3000, "maxpaths": 30000, "partial_ok_all": True, "unsupported_ok": True},
+        "quick": {"timeout": 1500, "maxpaths": 200, "partial_ok_all": True, "unsupported_ok": True},
+        "thorough": {"timeout": 5000, "maxpaths": 3000, "partial_ok_all": True, "unsupported_ok": True},
     },
     "C08": {
         "pkgs": [MOD, MOD + "/layers"],
@@ -389,9 +424,9 @@ PROPS = {
         "pkgs": [MOD + "/pcapgo"],
         "static": [("pcapgo", "c14.go")],
         "violation_filter": no_alloc,
-        "bounds": "pcap (micro and nano): 1..2 packets, data 0..3 symbolic bytes, Length = caplen + symbolic 16-bit excess, seconds any 32-bit value, nanoseconds 0..999999999, symbolic snap length >= 3 and link type; read back copying or zero-copy; crash points: every truncation offset of the produced file (enumerated)",
-        "outside": "libpcap (cgo) reading the same file is not encodable and not claimed; gzip",
-        "quick": {"timeout": 900, "units": "verif_C14_pcap_(micro|nano_cut)"},
+        "bounds": "pcapng: section/interface strings of every length 0..3 (symbolic contents), symbolic link type and snap length, 1..2 packets with 0..3 symbolic data bytes, symbolic Length excess, optional comment/queue/drop-count options, concrete timestamps (one unit with a symbolic timestamp relies on the bv-as-int back end); every truncation offset after the interface block; pcap (micro and nano): 1..2 packets, data 0..3 symbolic bytes, Length = caplen + symbolic 16-bit excess, seconds any 32-bit value, nanoseconds 0..999999999, symbolic snap length >= 3 and link type; read back copying or zero-copy; crash points: every truncation offset of the produced file (enumerated)",
+        "outside": "libpcap (cgo) reading the same file is not encodable and not claimed; gzip; more than one interface; hash/verdict/flags options; interface statistics and name-resolution blocks",
+        "quick": {"timeout": 1200, "units": "verif_C14_(pcap_micro|pcap_nano_cut|ng|ng_cut)"},
         "thorough": {"timeout": 3000},
     },
     "C15": {
@@ -399,7 +434,7 @@ PROPS = {
         "static": [("pcapgo", "c15.go")],
         "bounds": "every stream length 0..L enumerated (one instance per length), contents fully symbolic; pcap L=56 quick/72 thorough, snoop L=48/64, pcapng L=48/96; up to 3 (pcap) / 2 (snoop, pcapng) read calls, copying or zero-copy chosen per call; chunking: first two Read calls return 1, 3, 7 or all bytes (all 16 combinations); fault: I/O error injected at a symbolic byte position; declared pcap snap length assumed <= 65535; allocations whose symbolic size can exceed 65536 elements are reported",
         "outside": "gzip-wrapped input (assumed away right after the magic test); longer streams",
-        "quick": {"timeout": 1200, "maxpaths": 6000, "partial_ok_all": True, "params": "verif_C15_pcap:len=0..48;verif_C15_pcap_(chunks|fault):len=0..48/4;verif_C15_snoop.*:len=0..44/4;verif_C15_ng:len=0..30/2;verif_C15_ng_idb:len=0..28/4;verif_C15_ng_epb:len=28..44/8", "units": "verif_C15_(pcap|pcap_chunks|pcap_fault|snoop|snoop_fault|ng|ng_idb|ng_epb)"},
+        "quick": {"timeout": 1800, "maxpaths": 1500, "partial_ok_all": True, "unsupported_ok": True, "params": "verif_C15_pcap:len=0..48;verif_C15_pcap_(chunks|fault):len=0..48/4;verif_C15_snoop.*:len=0..44/4;verif_C15_ng:len=0..30/2;verif_C15_ng_idb:len=0..28/4;verif_C15_ng_epb:len=28..44/8", "units": "verif_C15_(pcap|pcap_chunks|pcap_fault|snoop|snoop_fault|ng|ng_idb|ng_epb)"},
         "thorough": {"timeout": 3000, "params": "verif_C15_pcap.*:len=0..72;verif_C15_snoop.*:len=0..64;verif_C15_ng:len=0..40;verif_C15_ng_(chunks|fault|mixed):len=0..36;verif_C15_ng_idb:len=0..44;verif_C15_ng_epb:len=28..64"},
     },
     "C16": {
